@@ -3,7 +3,7 @@
    lists of thread choices, any number of producers, any flow keys, any channel capacity, sync.Pool
    handing back any channel that was put). *)
 From Coq Require Import List Arith Bool ZArith.
-From Dae Require Import C13_Spec C13_Model C13_Proofs C13_Inv C13_EpModel C13_EpProofs C13_EpTuples C13_EpFine C13_EpFineWit C13_TrFine C13_TrFineProofs C13_Ingress C13_IngressProofs C13_IngressCor.
+From Dae Require Import C13_Spec C13_Model C13_Proofs C13_Inv C13_EpModel C13_EpProofs C13_EpTuples C13_EpFine C13_EpFineWit C13_TrFine C13_TrFineProofs C13_Ingress C13_IngressProofs C13_IngressCor C13_TrGen C13_TrGenProofs.
 Import ListNotations.
 
 (* The full statement: for every schedule the history satisfies the spec's safety clause (per flow the
@@ -87,6 +87,27 @@ Theorem C13_tuple_wait_once_refuted :
   exists thr sched, deletes_ok (tr_run false thr sched) = false /\ exists k, refs_match (tr_run false thr sched) k = false.
 Proof. exact C13_tuple_wait_once_refuted_proof. Qed.
 Print Assumptions C13_tuple_wait_once_refuted.
+
+(* Kernel flow entries across generations (C13_TrGen.v: controlPlaneCore instances sharing one tracker per BPF
+   object set through the ref-counted registry; a closed generation that still owns endpoints takes the shared
+   tracker again when it retains or releases): for every history of new generations, generation Close —
+   forced retirement while its endpoints are alive included, as long as another open generation exists on the
+   same BPF object set (decidable side condition `disciplined`) —, retains, releases and adoptions by open and
+   closed generations, the shared tracker counts per tuple exactly the live owners among all generations, and
+   every kernel delete was issued when no owner was left. *)
+Theorem C13_tuple_refcount_generations :
+  forall (ops : list gop), disciplined true ops = true ->
+    forall b k, gen_refs_ok (grun true ops) b k = true /\ gen_deletes_ok (grun true ops) = true.
+Proof. exact C13_tuple_refcount_generations_proof. Qed.
+Print Assumptions C13_tuple_refcount_generations.
+
+(* A closed generation that reports no tracker (its releases then take the untracked delete-everything path)
+   deletes a tuple that a newer generation's endpoint still owns and leaves its own references behind. *)
+Theorem C13_closed_core_without_tracker_refuted :
+  exists ops, disciplined false ops = true /\ gen_deletes_ok (grun false ops) = false
+              /\ exists b k, gen_refs_ok (grun false (removelast ops)) b k = false.
+Proof. exact C13_closed_core_without_tracker_refuted_proof. Qed.
+Print Assumptions C13_closed_core_without_tracker_refuted.
 
 (* ---- ingress batch reader (C13_Ingress.v: udp_ingress_batch.go, the ReadBatch -> Take -> EmitTask hand-off) ---- *)
 
